@@ -175,7 +175,7 @@ def run_c02(ctx):
             if r2.startswith('OK'):
                 ctx['distribution']['accepted_at_deeper_cover'] = ctx['distribution'].get('accepted_at_deeper_cover', 0) + 1
                 continue
-        v = {'key': key, 'kind': 'canonical-' + what, 'detail': {'corpus_entry': entry, 'solution': Sol, 'checker': res, 'confirmed': conf}}
+        v = {'key': LOBE_KEY if lobe_known(m, conf) else key, 'kind': 'canonical-' + what, 'detail': {'corpus_entry': entry, 'solution': Sol, 'checker': res, 'confirmed': conf}}
         if conf:
             v['text'] = '%s at point (%s, %s) > 2 units from every solution edge: windings %s (clip type %d, fill rule %d, reverse=%s)' % (
                 txt, conf['point'][0], conf['point'][1], conf['windings'], m['ct'], m['fr'], m.get('rev', False))
@@ -264,7 +264,7 @@ def run_c19(ctx):
             r2 = fw.recheck_deeper(ctx['root'], ctx['outdir'], [cid]).get(cid, '')
             if r2.startswith('OK'):
                 continue
-        v = {'key': key, 'kind': 'set-identities', 'detail': {'corpus_entry': entry, 'checker': res, 'confirmed': conf,
+        v = {'key': LOBE_KEY if lobe_known(m, conf) else key, 'kind': 'set-identities', 'detail': {'corpus_entry': entry, 'checker': res, 'confirmed': conf,
                                                                'outputs': {k: m[k] for k in ('U', 'I', 'D', 'X', 'D2')}}}
         if conf:
             v['text'] = 'fill rule %d: at point (%s, %s), > 2 units from every input edge, the parities of Union/Intersection/Difference/Xor/Difference(C,S) = %s break the set identities' % (
@@ -307,7 +307,7 @@ def run_same_region(ctx, cmd, prefix, n, corpus, a_key, b_key, band_fn, r2_fn, e
             r2x = fw.recheck_deeper(ctx['root'], ctx['outdir'], [cid]).get(cid, '')
             if r2x.startswith('OK'):
                 continue
-        v = {'key': key, 'kind': 'region-differs', 'detail': {'corpus_entry': entry, 'case': m, 'checker': res, 'confirmed': conf}}
+        v = {'key': LOBE_KEY if lobe_known(m, conf) else key, 'kind': 'region-differs', 'detail': {'corpus_entry': entry, 'case': m, 'checker': res, 'confirmed': conf}}
         if conf:
             v['text'] = '%s: the two results differ at point (%s, %s), outside the rounding band (windings %s)' % (what_fn(m), conf['point'][0], conf['point'][1], conf['windings'])
         else:
@@ -497,6 +497,201 @@ def run_c15(ctx):
     return k1_finish(ctx, 'C15', out_v, mismatches, 'TrimCollinear64')
 
 
+# ------------------------------------------------------------------ C08
+def run_c08(ctx):
+    n = _tier(ctx, 1500, 30000)
+    out, err = fw.run_stream(ctx['root'], ctx['workdir'], 'c08', ctx['seed'], n, [])
+    if out is None:
+        raise RuntimeError(err)
+    ctx['outdir'] = out
+    results, ncases, timed_out = fw.run_checker(ctx['root'], out, _tier(ctx, 900, 5400))
+    meta = fw.load_meta(out)
+    summary = json.load(open(os.path.join(out, 'summary.json')))
+    _merge_dist(ctx, summary)
+    ent = lambda m: {'pattern': m['pattern'], 'path': m['path'], 'sum': m['sum'], 'closed': m['closed']}
+    viol = []
+    for d in summary.get('direct_failures') or []:
+        e = ent(d)
+        viol.append({'key': fw.input_key(e), 'kind': d.get('kind'), 'text': 'Minkowski%s64(%s, %s, closed=%s): %s %s' % ('Sum' if d['sum'] else 'Diff', d['pattern'], d['path'], d['closed'], d.get('kind'), d.get('panic', '')),
+                     'detail': {'corpus_entry': e}})
+    mismatches, seen = [], set()
+    for cid, res in results.items():
+        m = meta[cid]
+        entry = ent(m)
+        key = fw.input_key(entry)
+        kind = cid[-1]
+        ctx['evaluations'] += 1
+        if kind == 'm':
+            if m['quads'] and m['result']:
+                seen.add(key)
+            if res.startswith('ERROR'):
+                raise RuntimeError(res)
+            model = None if res.startswith('PANIC') else [p for p in parse_paths_out(res)] if res.strip() else []
+            if model is not None and m['quads'] == [] and model == [[]]:
+                model = []
+            if model != m['quads']:
+                mismatches.append({'input': entry, 'go_quads': m['quads'], 'model': model})
+            if len(ctx['samples']) < 3 and m['quads']:
+                ctx['samples'].append({'input': entry, 'quads': m['quads'][:4], 'result': m['result']})
+            continue
+        if res.startswith('OK'):
+            continue
+        R, Q = m['result'], m['quads']
+        if kind == 'q':
+            sets, band, pred, what = [R, Q], geom.closed_edges(Q), (lambda w: (w[0] % 2 != 0) == (w[1] != 0)), 'result differs from the union of the swept parallelograms'
+        elif kind == 'c':
+            sets, band, pred, what = [R], geom.closed_edges(R), (lambda w: w[0] in (0, 1)), 'result is not a canonical polygon set'
+        else:
+            R2 = m['result_swapped']
+            sets, band, pred, what = [R, R2], geom.closed_edges(Q), (lambda w: (w[0] % 2 != 0) == (w[1] % 2 != 0)), 'sum(A,B) and sum(B,A) differ'
+        conf = fw.confirm_region(sets, band, 4, pred, fw.parse_fail(res))
+        if not conf:
+            r2 = fw.recheck_deeper(ctx['root'], ctx['outdir'], [cid]).get(cid, '')
+            if r2.startswith('OK'):
+                continue
+        v = {'key': LOBE_KEY if lobe_known(m, conf) else key, 'kind': 'minkowski-' + kind, 'detail': {'corpus_entry': entry, 'result': R, 'quads': Q, 'checker': res, 'confirmed': conf}}
+        if conf:
+            v['text'] = 'Minkowski%s64 closed=%s: %s at point (%s, %s), windings %s' % ('Sum' if m['sum'] else 'Diff', m['closed'], what, conf['point'][0], conf['point'][1], conf['windings'])
+        else:
+            v['text'] = 'Minkowski region certificate rejected (%s) for input key %s' % (res[:80], key)
+            v['no_input'] = True
+        viol.append(v)
+    ctx['nontrivial'] += len(seen)
+    return k1_finish(ctx, 'C08', viol, mismatches, 'minkowskiInternal')
+
+
+# ------------------------------------------------------------------ C14
+def round53(x):
+    a = abs(x)
+    n = a.bit_length()
+    if n <= 53:
+        return x
+    e = n - 53
+    qq, r = a >> e, a & ((1 << e) - 1)
+    half = 1 << (e - 1)
+    if r > half or (r == half and qq % 2 == 1):
+        qq += 1
+    return (qq << e) * (1 if x > 0 else -1)
+
+
+def exact_shoelace2(p):
+    if len(p) < 3:
+        return 0
+    return shoelace2([p])
+
+
+def pip_exact(q, poly):
+    """0 on, 1 inside, 2 outside; exact, even-odd"""
+    n = len(poly)
+    for i in range(n):
+        a, b = poly[i - 1], poly[i]
+        if cross3(a, b, q) == 0 and min(a[0], b[0]) <= q[0] <= max(a[0], b[0]) and min(a[1], b[1]) <= q[1] <= max(a[1], b[1]):
+            return 0
+    w = geom.wn([poly], (F(q[0]), F(q[1])))
+    return 1 if w % 2 != 0 else 2
+
+
+def run_c14(ctx):
+    n = _tier(ctx, 30000, 600000)
+    out, err = fw.run_stream(ctx['root'], ctx['workdir'], 'c14', ctx['seed'], n, [])
+    if out is None:
+        raise RuntimeError(err)
+    results, ncases, timed_out = fw.run_checker(ctx['root'], out, _tier(ctx, 600, 3600))
+    meta = fw.load_meta(out)
+    summary = json.load(open(os.path.join(out, 'summary.json')))
+    _merge_dist(ctx, summary)
+    viol, mismatches = [], []
+    for d in summary.get('direct_failures') or []:
+        viol.append({'key': fw.input_key(d.get('path')), 'kind': d.get('kind'), 'text': '%s: %s' % (d.get('kind'), d.get('panic')), 'detail': {'corpus_entry': d}})
+    B = 1 << 29
+    inb = lambda p: all(abs(c) <= B for v in p for c in v)
+    ntriv = 0
+    for cid, res in results.items():
+        m = meta[cid]
+        kind = cid[-1]
+        ctx['evaluations'] += 1
+        if res.startswith('ERROR'):
+            raise RuntimeError(res)
+        go = m['go']
+        if kind in ('t', 'u', 'p', 'c'):
+            model = res.strip()
+            if str(go) != model:
+                mismatches.append({'case': m, 'model': model})
+            if kind == 'c':
+                p1, p2, p3 = m['pts']
+                exact0 = cross3(p1, p2, p3) == 0
+                ntriv += 1
+                if len(ctx['samples']) < 2:
+                    ctx['samples'].append({'collinear': m['pts'], 'go': go, 'exact_cross_is_zero': exact0})
+                if bool(go) != exact0:
+                    diffs = (p2[0] - p1[0], p3[1] - p2[1], p2[1] - p1[1], p3[0] - p2[0])
+                    unit = 1 in diffs
+                    viol.append({'key': 'trisign-unit-difference' if unit and str(go) == model else fw.input_key(m['pts']), '_known_class': unit and str(go) == model,
+                                 'kind': 'collinear',
+                                 'text': 'isCollinear%s = %s but the exact cross product is %d (TrimCollinear64 of the 3-point closed path gives %s)' % (m['pts'], bool(go), cross3(p1, p2, p3), m.get('trim3')),
+                                 'detail': {'corpus_entry': m['pts'], 'differences': diffs}})
+            continue
+        if kind == 'a':
+            p = m['path']
+            mt, mp, ex = res.split()
+            if go != '%s %s' % (mt, mp) or m.get('areapaths') != mt:
+                mismatches.append({'case': m, 'model': res})
+            if len(p) >= 3:
+                ntriv += 1
+            if inb(p):
+                ex = int(ex)
+                gt, gp = go.split()
+                ok = gt != 'inexact' and int(gt) == round53(ex) and int(gp) == (1 if ex >= 0 else 0)
+                if not ok:
+                    wrap = abs(ex) >= (1 << 63)
+                    viol.append({'key': 'area64-int64-wrap' if wrap and go == '%s %s' % (mt, mp) else fw.input_key(p), '_known_class': wrap, 'kind': 'area',
+                                 'text': 'Area64 of a %d-vertex path within 2^29 is %s/2 (IsPositive64=%s) but the exact shoelace sum is %d' % (len(p), gt, gp, ex),
+                                 'detail': {'corpus_entry': p}})
+            continue
+        if kind == 'b':
+            p = m['path']
+            if go != res.strip():
+                mismatches.append({'case': m, 'model': res})
+            if p and inb(p):
+                xs, ys = [v[0] for v in p], [v[1] for v in p]
+                want = '%d %d %d %d' % (min(xs), min(ys), max(xs), max(ys))
+                if go != want + ' ' + want:
+                    viol.append({'key': fw.input_key(p), 'kind': 'bounds', 'text': 'GetBounds64/getBounds(%s) = %s, exact extremes are %s' % (p[:6], go, want), 'detail': {'corpus_entry': p}})
+            elif not p and go != '0 0 0 0 0 0 0 0':
+                viol.append({'key': 'bounds-empty', 'kind': 'bounds', 'text': 'GetBounds64([]) = %s' % go, 'detail': {'corpus_entry': p}})
+            continue
+        if kind == 's':
+            model = parse_paths_out(res)[0]
+            if model != go:
+                mismatches.append({'case': m, 'model': model})
+            continue
+        if kind == 'i':
+            mm, ms = res.split()
+            ntriv += 1
+            if str(go) != mm:
+                mismatches.append({'case': m, 'model': res})
+            poly, qq = m['poly'], m['q']
+            if len(ctx['samples']) < 4:
+                ctx['samples'].append({'point': qq, 'polygon': poly, 'go': go, 'spec': ms})
+            flat = len(set(v[1] for v in poly)) <= 1
+            if not flat and len(poly) >= 3 and inb(poly + [qq]):
+                want = pip_exact(qq, poly)
+                if go != want or int(ms) != want:
+                    viol.append({'key': fw.input_key([qq, poly]), 'kind': 'point-in-polygon',
+                                 'text': 'PointInPolygon(%s, %s) = %d, exact integer arithmetic gives %d (0 on, 1 inside, 2 outside)' % (qq, poly, go, want),
+                                 'detail': {'corpus_entry': {'q': qq, 'poly': poly}, 'model_spec': ms}})
+            continue
+    ctx['nontrivial'] += ntriv
+    uniq, out_v = set(), []
+    for v in viol:
+        k = (v['key'], v['kind'])
+        if k in uniq:
+            continue
+        uniq.add(k)
+        out_v.append(v)
+    return k1_finish(ctx, 'C14', out_v, mismatches, 'Area64/GetBounds64/PointInPolygon/isCollinear/productsAreEqual/multiplyUInt64/triSign/StripDuplicates')
+
+
 REGION_TRUST = [
     "the region checker is proved sound for every real point (Cert/RegionSound.v); what ties it to the code is that the implementation's actual outputs are fed to the extracted checker on every run (generated + corpus inputs): a defect no generated input triggers stays invisible",
     fw.REAL_AXIOMS,
@@ -530,6 +725,20 @@ PROPS = {
                   'Model/Arith.v isCollinear/productsAreEqual/triSign models (faithful, including triSign 1 = 0)',
                   'the executable statement of the property (lib/propdefs.py trim_clauses) evaluated on the implementation outputs'],
         'rule': 'exhaustive: all closed and open paths of <= 4 points on the 3x3 lattice; random: tiny-grid paths, polygons with inserted collinear midpoints/duplicates/spikes/rotated starts, staircases, large coordinates with unit differences, fully collinear paths; non-trivial = at least one vertex removed and the result non-empty',
+        'assumes': [],
+    },
+    'C08': {
+        'run': run_c08, 'level': 'proof',
+        'trust': ['Model/Minkowski.v: faithful model of minkowskiInternal, compared exactly (all quads, in order) with the implementation through the verif hook on every generated input'] + REGION_TRUST,
+        'rule': 'patterns (convex, random, rectangles, stars, both orientations, empty) x paths (polygons, zigzags, single point, collinear, empty) x sum/diff x closed/open; region certification for cases with <= 24 quads; distinct = distinct input; non-trivial = non-empty quads and result',
+        'assumes': ['PARTIAL: the result is certified equal to the union of the swept parallelograms at every point farther than 2 from every parallelogram edge (and canonical); points near an INTERIOR parallelogram edge whose whole 2-neighbourhood is swept are not decided by the certificate (see DESIGN.md 4.8)'],
+    },
+    'C14': {
+        'run': run_c14, 'level': 'proof',
+        'trust': ['hand-written Gallina models Model/Arith.v and Model/Measures.v (int64 wrap-around explicit, float64(int64) as round53), compared exactly with the Go functions (exported ones directly, unexported ones through the verif hooks) on every generated input',
+                  'the float64 result of Area64 is compared through its exact value (2*Area64 as an integer)',
+                  'lib/propdefs.py: exact-integer statement of each clause (shoelace sum, extremes, crossing parity, cross product) evaluated on the implementation outputs'],
+        'rule': 'int64 values around 0, +-1, 2^26, 2^29, 2^53, arbitrary 64-bit patterns for the arithmetic kernels; point triples biased to exact collinearity and unit differences; paths of all generator kinds plus the 2^30 square wound 1-5 times; point/polygon pairs with the point on vertices, edges and horizontals through vertices, on grids 2..10 and at 2^26/2^29; non-trivial = collinear triples, paths >= 3 points, all point-in-polygon cases',
         'assumes': [],
     },
     'C02': {
